@@ -542,6 +542,11 @@ AUX_POINTS = [(-10.0, -10.0), (10.0, -10.0), (-10.0, 10.0), (10.0, 10.0)]
 AUX_GAIN = 1.0e6
 
 
+# lines shorter than the tolerance in force (a short move still starts and ends where it was asked to)
+SHORT_LINES = [(0.5, 0.5, 0.7, 0.6), (1.0, 1.0, 1.25, 1.0), (2.0, 0.5, 2.0, 0.25)]
+COARSE_SHORT = [(0.0, 0.0, 1.0, 1.0), (2.0, 1.0, 0.5, 1.0), (0.0, 0.0, 2.0, 2.0)]
+
+
 def sparse_lines(rich):
     """[(tolerance, scales, lines)]. rich: every ordered pair of the 8 end points at 0.378 and six lines at 0.05;
     lean: ten lines at 0.378 and one long line at 0.05 (scale 1 only)."""
@@ -549,9 +554,9 @@ def sparse_lines(rich):
     if rich:
         coarse = [(a[0], a[1], b[0], b[1]) for a in e for b in e]
         fine = [e[0] + e[1], e[6] + e[2], e[4] + e[5], e[5] + e[4], e[3] + e[2], e[1] + e[0]]
-        return [(0.378, SCALES, coarse), (0.05, SCALES, [tuple(x) for x in fine])]
+        return [(0.378, SCALES, coarse + SHORT_LINES), (0.05, SCALES, [tuple(x) for x in fine]), (2.0, (1.0,), COARSE_SHORT)]
     coarse = [e[0] + e[1], e[1] + e[0], e[0] + e[2], e[2] + e[3], e[3] + e[0], e[6] + e[2], e[2] + e[6], e[4] + e[5], e[5] + e[4], e[0] + e[0]]
-    return [(0.378, SCALES, [tuple(x) for x in coarse]), (0.05, (1.0,), [tuple(e[4] + e[5])])]
+    return [(0.378, SCALES, [tuple(x) for x in coarse] + SHORT_LINES), (0.05, (1.0,), [tuple(e[4] + e[5])]), (2.0, (1.0,), COARSE_SHORT)]
 
 
 def cross(o, a, b):
